@@ -455,3 +455,42 @@ func C13ForeignFrames() {
 	}
 	sym.Reach("foreign-done")
 }
+
+// C13LeaverAndNewcomer: subscriber A has unread events when it cancels; subscriber B (another signal,
+// same connection) subscribes before A's channel has been drained; then A drains. B's subscription
+// must not be disturbed by A's departure: its channel stays open and it gets its events.
+func C13LeaverAndNewcomer() {
+	s := newZZStream()
+	e := net.NewEndPoint(s)
+	c := NewClient(NewChannel(e, DefaultCap()))
+	cancelA, evA, err := c.Subscribe(1, 1, 200)
+	sym.Assert(err == nil, "leaver/subscribe-a")
+	unread := 1 + sym.Choose("unread-events", 2)
+	for i := 0; i < unread; i++ {
+		s.inject(net.NewMessage(net.NewHeader(net.Event, 1, 1, 200, uint32(10+i)), []byte{byte(i)}))
+	}
+	sym.Quiesce()
+	cancelA()
+	if sym.Bool("quiesce-after-cancel") {
+		sym.Quiesce()
+	}
+	_, evB, err := c.Subscribe(1, 1, 201)
+	sym.Assert(err == nil, "leaver/subscribe-b")
+	// A drains what it had (its channel ends up closed)
+	n := 0
+	for range evA {
+		n++
+	}
+	sym.Assert(n <= unread, "leaver/a-got-more-than-was-emitted")
+	sym.Quiesce()
+	data := sym.Bytes("event-data", 1)
+	s.inject(net.NewMessage(net.NewHeader(net.Event, 1, 1, 201, 20), data))
+	sym.Quiesce()
+	got, closed := zzDrainNow(evB)
+	sym.Assert(!closed, "leaver/newcomer-channel-closed")
+	sym.Assert(len(got) == 1, "leaver/newcomer-event-count")
+	if len(got) == 1 {
+		sym.Assert(sym.EqBytes(got[0], data), "leaver/newcomer-event-payload")
+	}
+	sym.Reach("leaver-done")
+}
